@@ -1,1 +1,112 @@
-"""C16 contracts."""
+"""C16 - template initialisation never overwrites existing files (init_from_template over the file-system model).
+
+Path helpers, variable processing and jinja rendering are assumed contracts (uninterpreted functions); the obligations are
+about what init_from_template does with them: when it writes, what it writes, and that nothing else changes.
+"""
+import os
+
+from engine.spec import T, contract, forall, fs_exists, fs_only_changed, fs_read, fs_unchanged, implies, opaque
+from zorg.service.templates import ZorgTemplateManager
+
+NP = 2 if os.environ.get("VERIF_TIER") != "thorough" else 3
+PATH = T.rec("Path", {"s": T.str()})
+VARS = T.map(T.str(), T.str())
+
+
+@opaque("path")
+def page_path(zdir, path):
+    """prepend_zdir: the page's path under the notes directory (with .zo when there is no extension)"""
+    from zorg.shared import common as c
+
+    return c.prepend_zdir(zdir, path)
+
+
+@opaque("str", always=True)
+def relative(zdir, path):
+    """strip_zdir: the path relative to the notes directory"""
+    from zorg.shared import common as c
+
+    return c.strip_zdir(zdir, path)
+
+
+@opaque("str", always=True)
+def rendering(template_path, variables):
+    """A-JINJA: the rendering is a function of (template, variables)"""
+    return ""
+
+
+@opaque("map")
+def processed(variables):
+    """process_var_map: date-like values become datetimes, everything else is kept"""
+    from zorg.shared import common as c
+
+    return c.process_var_map(variables)
+
+
+_ASSUMED = dict(props=["C16"], assumed=True)
+contract("zorg.shared.common:prepend_zdir", args={"zdir": PATH, "path": PATH}, result_is="page_path(zdir, path)",
+         note="ASSUMED: Path.parents / suffix tests on symbolic paths are outside the VC generator; exercised by the bounded tier", **_ASSUMED)
+contract("zorg.shared.common:strip_zdir", args={"zdir": PATH, "path": PATH}, result_is="relative(zdir, path)", note="ASSUMED (str.replace)", **_ASSUMED)
+contract("zorg.service.templates:ZorgTemplateManager.render", args={"self": T.const(None), "template_path": PATH, "var_map": VARS},
+         result_is="rendering(template_path, var_map)", note="ASSUMED A-JINJA", **_ASSUMED)
+contract("zorg.shared.common:process_var_map", args={"var_map": VARS}, result_is="processed(var_map)", note="ASSUMED", **_ASSUMED)
+
+
+def _patterns_prelude(interp, loc):
+    """template_pattern_map: an ordered map of 0..NP (pattern, template path) entries; template: None or a path; var_map: None or a map"""
+    import z3
+    from engine import sym
+
+    ctx = interp.ctx
+    n = 0
+    while n < NP and not ctx.branch(ctx.fresh(f"npat_is_{n}", z3.BoolSort()), f"patterns=={n}"):
+        n += 1
+    m = {}
+    for i in range(n):
+        pat = sym.Rec("Pattern", {"id": ctx.fresh(f"pattern{i}", sym.usort("PatternId"))})
+        m[pat] = PATH.fresh(ctx, f"tmpl{i}")
+    loc["template_pattern_map"] = m
+    loc["_ghost_patterns"] = list(m.items())
+    loc["template"] = PATH.fresh(ctx, "template") if ctx.branch(ctx.fresh("has_template", z3.BoolSort()), "template given") else None
+    loc["var_map"] = VARS.fresh(ctx, "var_map") if ctx.branch(ctx.fresh("has_var_map", z3.BoolSort()), "var_map given") else None
+
+
+def target(zdir, new_path):
+    return page_path(zdir, new_path)
+
+
+def vars0(var_map):
+    return var_map if var_map is not None else {}
+
+
+def first_match(pats, rel):
+    """index of the first pattern (in map order) that matches the relative path, else -1"""
+    for i, (p, t) in enumerate(pats):
+        if p.match(rel) is not None:
+            return i
+    return -1
+
+
+def expected_text(zdir, pats, rel, template, var_map):
+    i = first_match(pats, rel)
+    if i >= 0:
+        p, t = pats[i]
+        return rendering(page_path(zdir, t), processed(vars0(var_map) | p.match(rel).groupdict()))
+    return rendering(page_path(zdir, template), processed(vars0(var_map)))
+
+
+contract(
+    "zorg.service.templates:init_from_template", props=["C16"],
+    args={"zdir": PATH, "new_path": PATH, "should_overwrite_existing": T.bool()}, prelude=_patterns_prelude,
+    bounded_note=f"bounded-symbolic: pattern maps of at most {NP} entries; patterns, paths, variables and file system fully symbolic",
+    list_bound=NP,
+    ensures={
+        "existing-file-untouched-unless-overwrite": "implies(old(fs_exists(target(zdir, new_path))) and not should_overwrite_existing, fs_unchanged())",
+        "nothing-written-without-a-match": "implies(first_match(_ghost_patterns, relative(zdir, target(zdir, new_path))) < 0 and template is None, fs_unchanged())",
+        "writes-the-rendering-of-the-first-match": "implies((not old(fs_exists(target(zdir, new_path))) or should_overwrite_existing) and "
+                                                   "(first_match(_ghost_patterns, relative(zdir, target(zdir, new_path))) >= 0 or template is not None), "
+                                                   "fs_exists(target(zdir, new_path)) and fs_read(target(zdir, new_path)) == "
+                                                   "expected_text(zdir, _ghost_patterns, relative(zdir, target(zdir, new_path)), template, var_map))",
+        "no-other-file-changes": "fs_only_changed(target(zdir, new_path))",
+    },
+)
